@@ -46,6 +46,29 @@ func c16File(decls []string) string {
 	return h + body
 }
 
+// c16Wide: 20 fields, so that its names are interned 16 and more apart.
+var c16Wide = func() string {
+	var sb strings.Builder
+	sb.WriteString("type Wide struct {\n")
+	for i := 0; i < 20; i++ {
+		fmt.Fprintf(&sb, "\tF%02d int\n", i)
+	}
+	sb.WriteString("}\n")
+	return sb.String()
+}()
+
+// c16StripStructs drops the lines that print whole struct references: Go's %v shows no field names there (C14
+// defines goatlang's rendering), so those lines are compared between layouts only, not with Go.
+func c16StripStructs(out string) string {
+	var keep []string
+	for _, l := range strings.Split(out, "\n") {
+		if !strings.HasPrefix(l, "S: ") {
+			keep = append(keep, l)
+		}
+	}
+	return strings.Join(keep, "\n")
+}
+
 func c16Gen(seed int64, idx int) c16Pkg {
 	rng := core.Derive(seed, "c16", idx)
 	var p c16Pkg
@@ -60,6 +83,14 @@ func c16Gen(seed int64, idx int) c16Pkg {
 		// functions sharing their names with a field and with a method (separate name spaces)
 		"func Tag(a *A) string {\n\treturn a.Tag + \"!\"\n}\n",
 		"func Name(b *B) string {\n\treturn \"<\" + b.Name() + \">\"\n}\n",
+		// struct types that share field names in a different order, and a wide type whose names a narrow one reuses
+		"type Size struct {\n\tW int\n\tH int\n}\n",
+		"type Box struct {\n\tH int\n\tW int\n\tTag string\n}\n",
+		"func area(s *Size, b *Box) int {\n\tb.H = s.W + 1\n\tb.W = s.H + 2\n\ts.W += b.H\n\treturn s.W*s.H + b.W*b.H\n}\n",
+		c16Wide,
+		"type Pair struct {\n\tF00 int\n\tF16 int\n\tF08 int\n}\n",
+		"func pair(n int) *Pair {\n\tp := &Pair{F00: n, F16: n + 1}\n\tp.F16 += 10\n\tp.F08 = p.F00 + p.F16\n\tp.F00++\n\treturn p\n}\n",
+		"func wide(n int) *Wide {\n\tw := &Wide{F03: n, F19: n * 2}\n\tw.F19 += w.F03\n\tw.F16 = 7\n\tw.F00 = w.F16 + w.F19\n\treturn w\n}\n",
 		"func even(n int) bool {\n\tif n == 0 {\n\t\treturn true\n\t}\n\treturn odd(n - 1)\n}\n",
 		"func odd(n int) bool {\n\tif n == 0 {\n\t\treturn false\n\t}\n\treturn even(n - 1)\n}\n",
 	)
@@ -83,7 +114,7 @@ func c16Gen(seed int64, idx int) c16Pkg {
 		body.WriteString("\treturn x\n}\n")
 		p.Hoist = append(p.Hoist, body.String())
 	}
-	p.Hoist = append(p.Hoist, fmt.Sprintf("func main() {\n\tfmt.Println(\"main\", g0, g1, g2, g3, f%d(g1), mk(k2).B.Name())\n\tfmt.Println(odd(k2), even(k1), gs, Tag(mk(k1)), Name(mk(k2).B), S)\n}\n", nf-1))
+	p.Hoist = append(p.Hoist, fmt.Sprintf("func main() {\n\tfmt.Println(\"main\", g0, g1, g2, g3, f%d(g1), mk(k2).B.Name())\n\tfmt.Println(odd(k2), even(k1), gs, Tag(mk(k1)), Name(mk(k2).B), S)\n\tsz := &Size{W: k1, H: 2}\n\tbx := &Box{Tag: \"b\"}\n\tp := pair(k2)\n\tw := wide(k1)\n\tfmt.Println(area(sz, bx), sz.W, sz.H, bx.H, bx.W, p.F00, p.F16, p.F08, w.F00, w.F03, w.F16, w.F19)\n\tfmt.Println(\"S: \", sz, bx, p)\n}\n", nf-1))
 	// the spine keeps its order: later initialisers depend on earlier ones
 	p.Spine = []string{
 		fmt.Sprintf("const k1 = %d\n", rng.Range(1, 9)),
@@ -160,7 +191,7 @@ func c16RunGoat(files map[string]string, dir string) core.Outcome {
 }
 
 func runC16(r *core.Run) {
-	r.SetRule("generated packages: two struct types referring to each other, methods (also declared before their type), a constructor, functions and a variable sharing their names with a field or a method, a mutually recursive pair, 2-6 functions calling earlier ones, main; and a fixed-order spine of constants, variable initialisers that call those functions, and one or two init functions. Each package is laid out in many variants: hoistable declarations permuted, merged with the spine at random positions (spine order kept), cut into 1-3 files with sort-order trap names, imports repeated per file. Every variant must print what the canonical single-file layout prints, and the canonical layout what Go prints. non-trivial = canonical layout accepted by Go; distinct by file tree")
+	r.SetRule("generated packages: two struct types referring to each other, methods (also declared before their type), a constructor, functions and a variable sharing their names with a field or a method, struct types sharing field names in another order and a 20-field type whose names a narrow type reuses (all written, read and printed whole), a mutually recursive pair, 2-6 functions calling earlier ones, main; and a fixed-order spine of constants, variable initialisers that call those functions, and one or two init functions. Each package is laid out in many variants: hoistable declarations permuted, merged with the spine at random positions (spine order kept), cut into 1-3 files with sort-order trap names, imports repeated per file. Every variant must print what the canonical single-file layout prints, and the canonical layout what Go prints. non-trivial = canonical layout accepted by Go; distinct by file tree")
 	r.Assume("metamorphic relation plus the Go toolchain (GOARCH=386) on the canonical layout; named non-struct types stay in the spine (the property hoists functions, methods and struct types)")
 	n := r.N(120, 3000)
 	variants := r.N(40, 150)
@@ -186,7 +217,9 @@ func runC16(r *core.Run) {
 		}
 		canon := c16RunGoat(refCases[i].Files, dir)
 		r.Eval(1)
-		if what := compareWithGo(ref, canon); what != "" {
+		refNS, canonNS := ref, canon
+		refNS.Out, canonNS.Out = c16StripStructs(ref.Out), c16StripStructs(canon.Out)
+		if what := compareWithGo(refNS, canonNS); what != "" {
 			r.Violate(core.Violation{Check: "c16-canonical", Index: i, What: "canonical layout: " + what, Case: c16Variant{Pkg: pkgs[i], Files: refCases[i].Files}, Expected: ref.Out, Observed: canon, Extra: firstDiff(ref.Out, canon.Out)})
 			return
 		}
